@@ -70,6 +70,13 @@ def snap(tr):
 
 
 def run_impl(case):
+    try:
+        return run_impl_(case)
+    except Exception as e:  # an unexpected exception of evo is an observable failure, not a tool error
+        return {"crash": f"{type(e).__name__}: {e}"}
+
+
+def run_impl_(case):
     from evo.core import sync
     s1, s2 = np.array(case["s1"], dtype=float), np.array(case["s2"], dtype=float)
     b1, b2 = s1.tobytes(), s2.tobytes()
@@ -106,6 +113,8 @@ def model_lines(case):
 
 
 def slack(case):
+    if case["kind"] == "grid":
+        return Fraction(0)  # every float operation of evo is exact on the dyadic grid
     mag = max([abs(x) for x in case["s1"] + case["s2"]] + [abs(case["off"]), abs(case["md"]), 1e-300])
     return frac(mag) * Fraction(8, 2 ** 52)
 
@@ -115,6 +124,10 @@ def parse_pairs(s):
 
 
 def judge(ctx, case, impl, outs):
+    if "crash" in impl:
+        ctx.fail(case, "no-unexpected-exception", impl["crash"])
+        ctx.record(case, False)
+        return
     m_match, m_assoc, m_margin = outs
     model_pairs = parse_pairs(m_match)
     sl = slack(case)
